@@ -153,6 +153,51 @@ func enumBlockPaths(start *ssa.BasicBlock, stop func(from, to *ssa.BasicBlock) b
 				}
 				return step(b, b.Succs[1])
 			}
+			// the same condition value tested again on this path has the same outcome (each instruction runs at most
+			// once on a block-simple path)
+			decided := false
+			var prevTruth bool
+			for _, pc := range p.Conds {
+				if pc.V == v {
+					decided, prevTruth = true, pc.True
+					break
+				}
+			}
+			if decided {
+				if prevTruth != neg {
+					return step(b, b.Succs[0])
+				}
+				return step(b, b.Succs[1])
+			}
+			// a comparison with nil of a value this path has already compared with nil is decided
+			if bo, ok := v.(*ssa.BinOp); ok && (bo.Op == token.EQL || bo.Op == token.NEQ) {
+				if k, isNil := bo.Y.(*ssa.Const); isNil && k.Value == nil {
+					x := p.resolve(bo.X)
+					for _, pc := range p.Conds {
+						b2, ok := pc.V.(*ssa.BinOp)
+						if !ok || (b2.Op != token.EQL && b2.Op != token.NEQ) {
+							continue
+						}
+						if k2, isNil2 := b2.Y.(*ssa.Const); !isNil2 || k2.Value != nil {
+							continue
+						}
+						if p.resolveAt(b2.X, pc.At) != x {
+							continue
+						}
+						wasNil := pc.True == (b2.Op == token.EQL)
+						condTrue := wasNil == (bo.Op == token.EQL)
+						p.Conds = append(p.Conds, pathCond{v, condTrue, len(p.Blocks) - 1})
+						var ok2 bool
+						if condTrue != neg {
+							ok2 = step(b, b.Succs[0])
+						} else {
+							ok2 = step(b, b.Succs[1])
+						}
+						p.Conds = p.Conds[:len(p.Conds)-1]
+						return ok2
+					}
+				}
+			}
 			for _, truth := range []bool{true, false} {
 				p.Conds = append(p.Conds, pathCond{v, truth != neg, len(p.Blocks) - 1})
 				succ := b.Succs[1]
